@@ -715,3 +715,70 @@ func ruleDecodeTargets(c *chk.Ctx) {
 	}
 	c.Check(ptrForm && valForm, "PAIR.wrap", wrap, "decode target matches the parameter's indirection", wrap.Pos(), "pointer parameters decode into New(arg.Elem()) and receive that pointer; value parameters decode into New(arg) and receive its element", "the input decoders do not distinguish pointer from value parameters (New(arg.Elem()) → pointer, New(arg) → element): a pointer parameter would be decoded through a **T (nil on absent params, DisallowUnknownFields method hidden)")
 }
+
+// ruleStubsKeepStrictness: a decoding stub that forwards to a wrapped target
+// of interface type with the lenient json.Unmarshal hides the target's own
+// DisallowUnknownFields method from Request.UnmarshalParams; it may do so only
+// on the edge where the target does not have that method.
+func ruleStubsKeepStrictness(c *chk.Ctx) {
+	n := 0
+	for _, f := range pkgFuncs(c, c.M.HandlerPkg) {
+		if f.Parent() != nil || f.Name() != "UnmarshalJSON" || f.Signature.Recv() == nil || f.Synthetic != "" {
+			continue
+		}
+		st := recvStruct(f)
+		if st == nil {
+			continue
+		}
+		var target *types.Var
+		for i := 0; i < st.NumFields(); i++ {
+			if _, isIface := st.Field(i).Type().Underlying().(*types.Interface); isIface {
+				target = st.Field(i)
+			}
+		}
+		if target == nil {
+			continue
+		}
+		ir.Instrs(f, func(ins ssa.Instruction) {
+			call, ok := ins.(*ssa.Call)
+			if !ok || !ir.IsCallTo(&call.Call, "encoding/json.Unmarshal") {
+				return
+			}
+			u, ok := call.Call.Args[1].(*ssa.UnOp)
+			if !ok {
+				return
+			}
+			fa, ok := u.X.(*ssa.FieldAddr)
+			if !ok || ir.FieldVar(fa) != target {
+				return
+			}
+			n++
+			guarded := false
+			for _, cd := range ir.CondsAt(call.Block()) {
+				e, ok := cd.V.(*ssa.Extract)
+				if !ok || e.Index != 1 || cd.Truth {
+					continue
+				}
+				ta, ok := e.Tuple.(*ssa.TypeAssert)
+				if !ok {
+					continue
+				}
+				if iface, ok := ta.AssertedType.Underlying().(*types.Interface); ok {
+					for i := 0; i < iface.NumMethods(); i++ {
+						if iface.Method(i).Name() == "DisallowUnknownFields" {
+							if tu, ok := ta.X.(*ssa.UnOp); ok {
+								if tfa, ok := tu.X.(*ssa.FieldAddr); ok && ir.FieldVar(tfa) == target {
+									guarded = true
+								}
+							}
+						}
+					}
+				}
+			}
+			c.Check(guarded, "WHO.strictstub", f, "stub keeps the target's own strictness", call.Pos(), "the lenient json.Unmarshal into the wrapped target runs only where the target has no DisallowUnknownFields method", "the stub decodes its wrapped target with the lenient json.Unmarshal without checking the target for a DisallowUnknownFields method: wrapping hides that method from Request.UnmarshalParams, so a parameter type that demands strict fields accepts unknown fields (e.g. while array support is enabled)")
+		})
+	}
+	if n == 0 {
+		c.Undecided("WHO.strictstub", nil, "decoding stubs", 0, "no stub that forwards to a wrapped target found")
+	}
+}
